@@ -36,13 +36,12 @@ def generate(ctx):
                 for p in ('R;I(x%d)' % i, 'R;I(l%d)' % i, 'R;I(Sx%d~l%d)' % (i, j), 'R;I(Sl%d~x%d)' % (i, j), 'R;I(Sl%d~l%d,x%d)' % (i, j, j)):
                     ctx.add('select %s %s all' % (e, p), kind='extreme')
     # get_by_index takes a usize: indices far beyond any array (and beyond i32 / u32 / i64) must simply miss.
-    # TODO(lead): the model converts the index with N.to_nat (the driver overflows its stack from about 2*10^6); the Coq side is
-    # being fixed -- until that is merged these cases are diff=False and judged on the implementation alone (below)
+    # (the model compares the index with the length before any unary conversion, so these are diffed too)
     ctx.usize_cases = []
     for v in (('a', []), ('a', [('u', 1), ('u', 2), ('u', 3)]), ('o', [(b'a', ('u', 1))]), ('u', 7)):
         e = gen.hexarg(gen.enc(v))
         for i in (2000000, (1 << 31) - 1, 1 << 31, (1 << 32) - 1, 1 << 32, (1 << 32) + 1, (1 << 63) - 1, 1 << 63, (1 << 64) - 2, (1 << 64) - 1):
-            ctx.usize_cases.append(ctx.add('get_by_index %s %d' % (e, i), kind='extreme', diff=False).id)
+            ctx.usize_cases.append(ctx.add('get_by_index %s %d' % (e, i), kind='extreme').id)
     # `last - 2147483648` etc. through the parser (i64 then checked_neg and i32::try_from; was saturating_neg)
     for t in (b'$[last - 2147483648]', b'$[last + 2147483647]', b'$[-2147483648 to last]', b'$[last-2147483647 to 2147483647]', b'{-2147483648}', b'{2147483647}'):
         ctx.add(('parse_json_path %s' if t[:1] == b'$' else 'parse_key_paths %s') % gen.hexarg(t), kind='extreme')
